@@ -181,6 +181,42 @@ pub fn c11(tier: &str, acc: &mut Acc, bounds: &mut Vec<String>) {
         }
     });
     acc.merge(a);
+    if level >= 1 {
+        // one very large array (about 1 300 blocks): settings just below 64 that are not powers of two
+        let pats: Vec<Vec<u8>> = families::huge_random_5byte(util::seed());
+        let kind = Kind::Std;
+        let dcfg = Cfg::new(Variant::Byte, kind, None, Entry::Builder);
+        let big_ks = [51u32, 56, 57, 63, 7, 3];
+        let origin0 = json!({"note": "100000 pseudo-random 5-byte patterns (xorshift, see props2::c11)", "variant": "bytewise", "kind": "standard"});
+        set_case(prop, "bisim", origin0.clone());
+        if let Some(d) = e2::build_or_violate(prop, "bisim", dcfg, &pats, None, acc) {
+            let labels = all_labels(&d.auto);
+            let a2 = par_for(big_ks.len(), |ki, acc| {
+                let k = big_ks[ki];
+                let cfg = Cfg::new(Variant::Byte, kind, Some(k), Entry::Builder);
+                let mut origin = cfg.json();
+                origin.as_object_mut().unwrap().insert("huge_family".into(), json!("100000 pseudo-random 5-byte patterns"));
+                origin.as_object_mut().unwrap().insert("seed".into(), json!(util::seed()));
+                origin.as_object_mut().unwrap().insert("haystack".into(), json!(hex(&pats.iter().step_by(3).flat_map(|p| p.iter().copied()).take(60_000).collect::<Vec<u8>>())));
+                set_case(prop, "bisim", origin.clone());
+                let Some(b) = e2::build_or_violate(prop, "bisim", cfg, &pats, None, acc) else {
+                    return;
+                };
+                acc.evals += 1;
+                acc.nontrivial += 1;
+                acc.max("blocks", (b.auto.raw().states.len() / 256) as u64);
+                // differential on a long pseudo-random haystack first (cheap), then the full product
+                let hay: Vec<u8> = pats.iter().step_by(3).flat_map(|p| p.iter().copied()).collect();
+                if let Some((m, ra, rb)) = e34::differ(&b.auto, &d.auto, kind, &hay) {
+                    acc.violate(prop, "bisim", format!("num_free_blocks={k} vs default on 100000 random 5-byte patterns: {} yields {} vs {} matches on a haystack of {} bytes", m.name(), ra.len(), rb.len(), hay.len()), origin.clone());
+                    return;
+                }
+                bisim_or_violate(prop, &format!("num_free_blocks={k} vs default on 100000 random 5-byte patterns"), &b.auto, &d.auto, kind, &labels, false, &origin, acc);
+            });
+            acc.merge(a2);
+        }
+        bounds.push("E4 nfb in {51,56,57,63,7,3} vs default on one array of about 1 300 blocks (100000 random 5-byte patterns)".into());
+    }
     bounds.push(format!(
         "E4 nfb in {:?} vs default x {} families (level {}) x 3 kinds, all labels",
         if level == 0 { format!("{ks:?}") } else { "1..=64".to_string() },
